@@ -13,10 +13,44 @@ import (
 )
 
 type (
-	Map    = gosync.Map
 	Pool   = gosync.Pool
 	Locker = gosync.Locker
 )
+
+// Map is sync.Map whose operations are scheduling points under the scheduler:
+// code that keeps state in a sync.Map next to a lock (the interpreter's mutex
+// bookkeeping does) has windows between the lock operation and the map
+// operation that only show if the map operation is a point of its own.
+type Map struct{ m gosync.Map }
+
+func (m *Map) point(kind string) {
+	if s := vsched.Cur(); s != nil {
+		s.Point("Mutex.Map."+kind, m)
+	}
+}
+
+func (m *Map) Load(key any) (any, bool)            { m.point("Load"); return m.m.Load(key) }
+func (m *Map) Store(key, value any)                { m.point("Store"); m.m.Store(key, value) }
+func (m *Map) Delete(key any)                      { m.point("Delete"); m.m.Delete(key) }
+func (m *Map) Clear()                              { m.point("Clear"); m.m.Clear() }
+func (m *Map) Range(f func(key, value any) bool)   { m.point("Range"); m.m.Range(f) }
+func (m *Map) Swap(key, value any) (any, bool)     { m.point("Swap"); return m.m.Swap(key, value) }
+func (m *Map) LoadOrStore(key, value any) (any, bool) {
+	m.point("LoadOrStore")
+
+	return m.m.LoadOrStore(key, value)
+}
+func (m *Map) LoadAndDelete(key any) (any, bool) { m.point("LoadAndDelete"); return m.m.LoadAndDelete(key) }
+func (m *Map) CompareAndSwap(key, old, new any) bool {
+	m.point("CompareAndSwap")
+
+	return m.m.CompareAndSwap(key, old, new)
+}
+func (m *Map) CompareAndDelete(key, old any) bool {
+	m.point("CompareAndDelete")
+
+	return m.m.CompareAndDelete(key, old)
+}
 
 // OnOp, when set by a harness, observes every modelled operation.
 var OnOp func(kind string, obj any)
